@@ -263,6 +263,16 @@ func (m *Machine) bigStub(fn *ssa.Function, args []Value) (Value, bool) {
 				return ret(BigV{lin: r})
 			}
 		}
+	case "SetString":
+		if sv, ok := args[1].(StrV); ok {
+			base, _ := concreteInt(args[2])
+			v, okp := new(big.Int).SetString(sv.s, base)
+			if !okp {
+				return TupleV{[]Value{Ptr{}, VBool{m.cbool(false)}}}, true
+			}
+			m.bigStore(recv, BigV{c: v})
+			return TupleV{[]Value{recv, VBool{m.cbool(true)}}}, true
+		}
 	case "String", "Text":
 		return StrV{"<big>"}, true
 	case "IsInt64":
